@@ -154,6 +154,48 @@ func c10WriterIsolation(r *run, g *rng) {
 		hist = append(hist, "lst := a.GetWriterBy(..); c1.Set(lst); c2.Set(lst); c1.Add(10); c2.Add(11)")
 		probe(c1, want1, "c1")
 		probe(c2, want2, "c2")
+		// … also when one of them removes a member that is not the last one
+		for i := 0; i < 12; i++ {
+			if own[i] {
+				if errSide {
+					c1.RemoveErrorWriter(w(i))
+				} else {
+					c1.RemoveWriter(w(i))
+				}
+				hist = append(hist, fmt.Sprintf("c1.Remove(%d)", i))
+				break
+			}
+		}
+		// (whether Remove reaches into a list that was given as one member is C03's business, not judged here: only
+		// the other two loggers are probed)
+		probe(c2, want2, "c2")
+		probe(a, own, "a")
+		// the same with the Remove first (nothing was appended yet, so a list adopted as it is would still be shared)
+		lst2 := a.GetWriterBy(lvl)
+		c3 := slog.New(fmt.Sprintf("iso-c3-%d", round)).SetLevel(slog.InfoLevel)
+		c4 := slog.New(fmt.Sprintf("iso-c4-%d", round)).SetLevel(slog.InfoLevel)
+		if errSide {
+			c3.SetErrorWriter(lst2)
+			c4.SetErrorWriter(lst2)
+		} else {
+			c3.SetWriter(lst2)
+			c4.SetWriter(lst2)
+		}
+		for i := 0; i < 12; i++ {
+			if own[i] {
+				if errSide {
+					c3.RemoveErrorWriter(w(i))
+					c3.AddErrorWriter(w(10))
+				} else {
+					c3.RemoveWriter(w(i))
+					c3.AddWriter(w(10))
+				}
+				hist = append(hist, fmt.Sprintf("lst2 := a.GetWriterBy(..); c3.Set(lst2); c4.Set(lst2); c3.Remove(%d); c3.Add(10)", i))
+				break
+			}
+		}
+		probe(c4, own, "c4")
+		probe(a, own, "a")
 		r.seen(fmt.Sprintf("iso|%v|%d|%s", errSide, k, strings.Join(hist, ",")))
 	}
 }
@@ -483,7 +525,17 @@ func runC10(r *run) {
 					touched[0] = true
 					r.emit(fmt.Sprintf("C10 set 0 level %d", pkgLevel), "0")
 				}
-				l := slog.New(name)
+				var l slog.Logger
+				if len(ls) > 1 && g.chance(1, 3) {
+					// another logger (with whatever level it has) is the default logger for a while: the package level,
+					// at which detached loggers start, is not moved by that
+					prev := slog.Default()
+					slog.SetDefault(ls[1+g.intn(len(ls)-1)].l)
+					l = slog.New(name)
+					slog.SetDefault(prev)
+				} else {
+					l = slog.New(name)
+				}
 				id := add(l, -1)
 				touched[id] = true
 				opDesc = fmt.Sprintf("newroot %s %d", hxs(name), pkgLevel)
